@@ -191,7 +191,7 @@ def run(ctx):
     ctx.check(ok, "C11.1", "reject:no-origin", "@ and relative names without an origin are Err(ExpectedOrigin)", "relative names without origin are not rejected", pdm.loc())
     # every Ok is behind "all ASCII" (the non-ASCII edge leads to the error only)
     oks_ = [b for b, kind, v in strpred.option_sources(pdm, pdr) if kind == "ok"]
-    na = all(strpred.guarded(pdc, b, is_s, lambda nf: nf == ("ascii", True)) for b in oks_) and bool(oks_)
+    na = all(strpred.ascii_required(pdm, pdc, is_s, b) for b in oks_) and bool(oks_)
     ctx.check(na, "C11.3", "parse_domain:ascii-only", "every successful parse is behind the all-ASCII test", "non-ASCII names are not rejected", pdm.loc())
     pw = prog.find("zones::deserialise::parse_domain_or_wildcard")
     pwr = A.Resolver(pw)
